@@ -256,6 +256,33 @@ def templated_rounds_register_measurement(conn, n, d, args, rounds):
     return out
 
 
+def compile_flush_other_work_then_commit(conn, n, d, args):
+    """a templated block that owns an array is compiled; OTHER work is built and flushed; then the block is instantiated and committed.
+    With ``args`` None: the block is flushed first, then the other work (same order of effects on the controller is not required: the host
+    values and the committed subroutines, as a set per block, are compared)."""
+    q = Qubit(conn)
+    q.rot_Y(n=n, d=d)
+    m = q.measure()                       # array-backed outcome owned by the block
+    if args is not None:
+        sub = conn.compile()
+        q2 = Qubit(conn)
+        q2.X()
+        m2 = q2.measure()
+        conn.flush()                      # other work, flushed between compile and commit
+        sub.instantiate(conn.app_id, args)
+        conn.commit_subroutine(sub)
+    else:
+        conn.flush()
+        q2 = Qubit(conn)
+        q2.X()
+        m2 = q2.measure()
+        conn.flush()
+    q3 = Qubit(conn)
+    m3 = q3.measure()
+    conn.flush()
+    return int(m), int(m2), int(m3)
+
+
 def compile_then_queue_then_commit(conn, n, d, args):
     """operations queued between compile() and commit_subroutine() must survive (they belong to the next flush)"""
     q = Qubit(conn)
